@@ -1,6 +1,6 @@
 (* The configuration of the transform state machine as the source has it now: every flag is read
    off the generated skeleton (Gen/TState.v).  Definitions only. *)
-From Coq Require Import List Bool String.
+From Coq Require Import List Bool String Arith.
 From DV Require Import Model.TransformState Gen.TState.
 Import ListNotations.
 Open Scope string_scope.
@@ -9,6 +9,15 @@ Definition sk_body (sk : list (string * list string)) (m : string) : list string
   match find (fun p => String.eqb (fst p) m) sk with Some p => snd p | None => [] end.
 Definition sk_has (sk : list (string * list string)) (m tok : string) : bool :=
   existsb (String.eqb tok) (sk_body sk m).
+
+(* position of a token in a method body (length of the body if absent) *)
+Fixpoint tok_index (tok : string) (l : list string) : nat :=
+  match l with
+  | [] => 0
+  | t :: r => if String.eqb t tok then 0 else S (tok_index tok r)
+  end.
+Definition sk_before (sk : list (string * list string)) (m a b : string) : bool :=
+  sk_has sk m a && sk_has sk m b && Nat.ltb (tok_index a (sk_body sk m)) (tok_index b (sk_body sk m)).
 
 Definition cfg_of (sk : list (string * list string)) : cfg :=
   let has := sk_has sk in
@@ -41,6 +50,11 @@ Definition cfg_of (sk : list (string * list string)) : cfg :=
     (has "CompositeTransform.clear_buffers" "call:transform.clear_buffers()")
     (has "CompositeTransform.condition_" "call:transform.condition_(*args, **kwargs)")
     (has "DenseVectorFieldTransform.grid_" "call:self.data_(flow.tensor())")
-    (has "BSplineTransform.grid_" "call:self.clear_buffers()").
+    (has "BSplineTransform.grid_" "call:self.clear_buffers()")
+    (sk_before sk "StationaryVelocityFieldTransform.inverse" "set:inv.exp=cast(ExpFlow, self.exp).inverse()" "if:update_buffers"
+     && sk_before sk "StationaryVelocityFreeFormDeformation.inverse" "set:inv.exp=cast(ExpFlow, self.exp).inverse()" "if:update_buffers")
+    (sk_before sk "ParametricTransform.link_" "if:self._parameters.get('params') is not None" "set:self._parameters=self._parameters.copy()"
+     && sk_before sk "ParametricTransform.link_" "set:self._parameters=self._parameters.copy()" "del:self._parameters['params']"
+     && sk_before sk "ParametricTransform.link_" "del:self._parameters['params']" "set:self.params=other").
 
 Definition gen_cfg : cfg := cfg_of gen_skeleton.
